@@ -80,7 +80,7 @@ STD_PARAM = {"InterfaceNotFound": "interface", "MethodNotFound": "method", "Meth
 def main(tier, replay):
     ctx = vlib.Ctx("C20", tier, "exploration")
     ctx.rule = ("scripted reply streams (nested objects/arrays, non-ASCII and escape-heavy strings, ESC bytes, boundary integers up to u64::MAX, floats, empty objects, absent parameters) x {call; call --more with k in 0..5 continues replies; "
-                "error replies standard/custom with/without parameters, also after k continues; connection closed instead of/within the reply stream} x address forms {unix path with several slashes, unix path;mode=, abstract, tcp, via resolver, --activate of a service that prints to its own stdout/stderr} x --color on/off; "
+                "error replies standard/custom with/without parameters, also after k continues; connection closed instead of/within the reply stream} x address forms {unix path with several slashes, unix path;mode=, abstract, tcp by numeric address and by host name, via resolver, --activate of a service that prints to its own stdout/stderr} x --color on/off; "
                 "distinct = (reply script, mode, address form, colour); non-trivial = >=1 nested value or >=2 replies or an error")
     ctx.assumptions.append("stdout is parsed with Python's json (independent parser); numbers are compared with their JSON kind (int vs float); floats come from a pool that round-trips exactly in any conforming printer/parser pair")
     bindir = vlib.build_repo_bins("debug", ["varlink-cli"])
@@ -113,7 +113,7 @@ def main(tier, replay):
     else:
         rng = vlib.Rng(ctx.seed)
         cases = []
-        forms = ["unix-deep", "unix-mode", "abstract", "tcp", "resolver", "activate"]
+        forms = ["unix-deep", "unix-mode", "abstract", "tcp", "resolver", "activate", "tcp-hostname"]
         for i in range(n):
             more = rng.chance(1, 2)
             k = rng.below(6) if more else 0
@@ -164,6 +164,9 @@ def main(tier, replay):
                 target = svcs["abstract"].address + "/org.example.t.Method"
             elif form == "tcp":
                 target = svcs["tcp"].address + "/org.example.t.Method"
+            elif form == "tcp-hostname":
+                # the host part of a tcp address is a host, not necessarily an address literal
+                target = svcs["tcp"].address.replace("127.0.0.1", "localhost") + "/org.example.t.Method"
             else:
                 target = "org.example.t.Method"
             cmd = [varlink, "--color", color, "-R", resolver.address, "call"] + (["--more"] if more else []) + [target, '{"arg": 1}']
